@@ -1,5 +1,7 @@
-"""C14 - see properties.jsonl; META is filled in below."""
-META = {"level": "proof", "trusted_base": [], "assumptions": [], "explanation": ""}
+"""C14 - claim and bounded driver; statement in properties.jsonl, design in DESIGN.md section 7."""
+from props.meta import META as _M
+
+META = _M["C14"]
 
 try:
     from props.C14_rac import rac, replay   # bounded run-time contract driver (stand-in + replay harness)
